@@ -87,6 +87,12 @@ const (
 	// VarCloseForwarded (Close only; on other kinds same as VarError): the wrapped object is
 	// closed (so the data is published) but Close still reports an error.
 	VarCloseForwarded
+	// VarCloseLost (Close only; not part of Variants): write-behind. While a plan contains this
+	// variant every Write is only buffered by the wrapper and flushed to the wrapped object when
+	// its Close is reached; the failing Close drops the buffered data and is not forwarded: the
+	// data that Write accepted never reaches the disk (full disk, quota, NFS write-behind), and
+	// Close is the only call that reports it.
+	VarCloseLost
 )
 
 func (v Variant) String() string {
@@ -97,6 +103,8 @@ func (v Variant) String() string {
 		return "short-write"
 	case VarCloseForwarded:
 		return "close-forwarded"
+	case VarCloseLost:
+		return "close-lost-data"
 	}
 	return "?"
 }
@@ -181,6 +189,8 @@ type Bucket struct {
 	under storage.ReadWriteBucket
 	plan  Plan
 
+	buffered bool // write-behind mode (a VarCloseLost failure is planned)
+
 	mu      sync.Mutex
 	next    int
 	crashed bool
@@ -191,7 +201,13 @@ type Bucket struct {
 
 // New wraps under with the plan.
 func New(under storage.ReadWriteBucket, plan Plan) *Bucket {
-	return &Bucket{under: under, plan: plan, open: map[*object]struct{}{}}
+	b := &Bucket{under: under, plan: plan, open: map[*object]struct{}{}}
+	for _, v := range plan.Fail {
+		if v == VarCloseLost {
+			b.buffered = true
+		}
+	}
+	return b
 }
 
 // Events returns the number of events seen so far (including failed and post-crash ones).
@@ -361,6 +377,7 @@ type object struct {
 	mu       sync.Mutex
 	writeErr error // first injected write error (sticky for atomic objects)
 	closed   bool
+	pending  []byte // write-behind mode: accepted but not yet forwarded
 }
 
 func (o *object) Write(p []byte) (int, error) {
@@ -391,6 +408,12 @@ func (o *object) Write(p []byte) (int, error) {
 			return n, err
 		}
 		return 0, err
+	}
+	if o.b.buffered {
+		o.mu.Lock()
+		o.pending = append(o.pending, p...)
+		o.mu.Unlock()
+		return len(p), nil
 	}
 	return o.under.Write(p)
 }
@@ -423,8 +446,23 @@ func (o *object) Close() error {
 	writeErr := o.writeErr
 	o.mu.Unlock()
 	if d.fail && d.variant != VarCloseForwarded {
-		// not forwarded: the wrapped object stays open (reaped later)
+		// not forwarded: the wrapped object stays open (reaped later); buffered data is lost
+		o.mu.Lock()
+		o.pending = nil
+		o.mu.Unlock()
 		return &InjectedError{Event: d.ev, Var: d.variant}
+	}
+	o.mu.Lock()
+	pending := o.pending
+	o.pending = nil
+	o.mu.Unlock()
+	if len(pending) > 0 && !(o.atomic && writeErr != nil) {
+		if _, err := o.under.Write(pending); err != nil {
+			o.b.mu.Lock()
+			delete(o.b.open, o)
+			o.b.mu.Unlock()
+			return errors.Join(err, o.under.Close())
+		}
 	}
 	if o.atomic && writeErr != nil {
 		// atomic contract: a failed write is never published; Close reports the write error.
